@@ -16,7 +16,7 @@ None == 0
 INSTANCE Contention WITH Progs <- <<>>, Guard <- "rollback", pi <- 0, pc <- 0, cs <- 0, fl <- 0, units <- 0,
                          failed <- FALSE, phase <- "", lastrc <- ""
 
-VARIABLE l
+VARIABLES l, fam
 Log == ndJsonDeserialize(IOEnv.TRACE)
 Has(r, f) == f \in DOMAIN r
 
@@ -64,15 +64,22 @@ AttemptOK(r) ==
     /\ (anyfail => r.out = "throw")        \* a refused statement is reported by throwing
     /\ (anybusy <=> (Has(r, "fault") /\ r.fault.fired))
     /\ (anybusy => lk.got /\ lk.hook)      \* nothing is refused unless the other connection holds a lock
-    /\ (anyfail => res.units = 0)          \* a call that throws has made none of its row changes durable
-    /\ res.units <= 1                      \* and a call that returns made them durable in one unit
+    \* a call that throws has made none of its row changes durable, a call that returns made them durable in one unit
+    /\ \/ (anyfail => res.units = 0) /\ res.units <= 1
+       \* Known finding v2-setter-not-atomic (known_findings.jsonl): four field setters of the 2.x track implementation issue
+       \* two UPDATE statements outside a transaction - two units, and one of them stays when the second is refused.
+       \/ /\ fam = "v2" /\ r.op = "set" /\ Has(r, "f") /\ r.f \in {"bpm", "key", "sample_count", "sample_rate"}
+          /\ res.units <= 2 /\ (anyfail => res.units <= 1)
+          /\ PrintT(<<"KF", l, "v2-setter-not-atomic">>)
 
 TCall ==
     /\ l <= Len(Log)
-    /\ LET r == Log[l] IN (r.e = "call" /\ Has(r, "lk")) => AttemptOK(r)
+    /\ LET r == Log[l] IN
+       /\ (r.e = "call" /\ Has(r, "lk")) => AttemptOK(r)
+       /\ fam' = IF r.e = "reset" THEN (IF Has(r, "family") THEN r.family ELSE "") ELSE fam
     /\ l' = l + 1
 
-TInit == l = 1
-TSpec == TInit /\ [][TCall]_l
+TInit == l = 1 /\ fam = ""
+TSpec == TInit /\ [][TCall]_<<l, fam>>
 Accepted == TLCGet("stats").diameter - 1 = Len(Log)
 =============================================================================
